@@ -215,7 +215,11 @@ def _gen_stmt19(tp, feat, r, routines, n_clocks):
 
 
 def _gen_lat(tp):
-    return tp.choice([None, -1, 0, 0, 1e-9, 0.2, 0.2, 0.125, 1])
+    # (the last four put whole or half logical seconds within one tick below
+    # a whole second: fraction part of the timetag at its upper boundary)
+    return tp.choice([None, -1, 0, 0, 1e-9, 0.2, 0.2, 0.125, 1,
+                      1 - 2.0 ** -52, 1 - 2.0 ** -51, 0.5 - 2.0 ** -52,
+                      1 - 2.0 ** -50])
 
 
 def _gen_els(tp, depth):
